@@ -559,9 +559,14 @@ class TCPHiddenServiceEndpoint(object):
         # descriptor and make this one the default? Then would
         # probably want to check for "is a local interface or not" and
         # at *least* warn if it's not local...
+        # a service created by an earlier listen() on this endpoint
+        # forwards to the local port we bound then: listen there again
+        local_port = 0
+        if self.hiddenservice is not None and self.local_port:
+            local_port = self.local_port
         self.tcp_endpoint = serverFromString(
             self._reactor,
-            'tcp:0:interface=127.0.0.1',
+            'tcp:%d:interface=127.0.0.1' % local_port,
         )
         d = self.tcp_endpoint.listen(self.protocolfactory)
         self.tcp_listening_port = yield d
